@@ -36,20 +36,30 @@ def behaviours(num, depth, seed, cfg="MC_EngineEmit.cfg"):
     return behs, r
 
 
-def _build(name):
-    from hexital import ATR, EMA, OBV, RSI, SMA, STOCH
+def _build(m):
+    """the library indicator for one menu entry of the model, named as the model names it"""
+    from catalog import IndCfg
 
-    return {"EMA_2": lambda: EMA(period=2), "SMA_2": lambda: SMA(period=2), "ATR_2": lambda: ATR(period=2),
-            "RSI_2": lambda: RSI(period=2), "STOCH_2": lambda: STOCH(period=2, slow_period=2, smoothing_k=2),
-            "OBV": lambda: OBV()}[name]()
+    kw = {}
+    if m["kind"] == "Supertrend":
+        kw["mult"] = 3.0
+    cfg = IndCfg(m["kind"], p=m["p"], p2=m["p2"], p3=m["p3"], extra={"fullname_override": m["name"]}, **kw)
+    return cfg.build(standalone=False)
+
+
+# ratios of smoothed quantities amplify the library's per-layer rounding (4 decimals); price-level
+# readings do not
+RATIO_KINDS = {"RSI": 0.06, "STOCH": 0.06, "AROON": 1e-3, "ROC": 2e-3}
 
 
 def _f(q):
     return q[0] / q[1]
 
 
-def _cmp_val(exp, got, path, bad):
+def _cmp_val(exp, got, path, bad, tol=TOL):
     t = exp["t"]
+    if t in ("nar", "any", "sqrt"):
+        return          # the exact arithmetic overflowed 32 bits / the specification leaves it open
     if t == "n":
         if got is not None:
             bad.append(f"{path}: expected None, library has {got!r}")
@@ -57,19 +67,19 @@ def _cmp_val(exp, got, path, bad):
         if got is not exp["b"]:
             bad.append(f"{path}: expected {exp['b']}, library has {got!r}")
     elif t == "q":
-        if got is None or isinstance(got, (dict, bool)) or abs(float(got) - exp["n"] / exp["d"]) > TOL:
+        if got is None or isinstance(got, (dict, bool)) or abs(float(got) - exp["n"] / exp["d"]) > tol * max(1.0, abs(exp["n"] / exp["d"]) / 10):
             bad.append(f"{path}: expected {exp['n']}/{exp['d']} = {exp['n'] / exp['d']:.6f}, library has {got!r}")
     elif t == "d":
         if not isinstance(got, dict) or list(got.keys()) != list(exp["k"]):
             bad.append(f"{path}: expected fields {exp['k']}, library has {got!r}")
         else:
             for k, v in zip(exp["k"], exp["v"]):
-                _cmp_val(v, got[k], f"{path}.{k}", bad)
+                _cmp_val(v, got[k], f"{path}.{k}", bad, tol)
     else:
         bad.append(f"{path}: specification value of kind {t!r} is not comparable")
 
 
-def _cmp_state(step_no, step, cands, bad):
+def _cmp_state(step_no, step, cands, bad, tols):
     exp = step["cs"]
     if len(exp) != len(cands):
         bad.append(f"call {step_no} {step['op']}: {len(cands)} candles, specification has {len(exp)}")
@@ -85,21 +95,28 @@ def _cmp_state(step_no, step, cands, bad):
             # a series that has nothing to show may be stored as None or not stored at all
             want = dict(zip(kv["k"], kv["v"]))
             for k in sorted(set(want) | set(have)):
-                _cmp_val(want.get(k, {"t": "n"}), have.get(k), f"{where} {kind} {k}", bad)
+                tol = max([TOL] + [t for nm, t in tols.items() if k == nm or k.startswith(nm + "_")])
+                _cmp_val(want.get(k, {"t": "n"}), have.get(k), f"{where} {kind} {k}", bad, tol)
 
 
 def replay(beh):
     """returns the list of mismatches (empty = the library followed the behaviour)"""
     from hexital import Candle, Hexital
 
-    cfg, names, hist = beh["cfg"], beh["names"], beh["hist"]
+    cfg, menu, hist = beh["cfg"], beh["menu"], beh["hist"]
+    names = [m["name"] for m in menu]
+    tols = {m["name"]: RATIO_KINDS[m["kind"]] for m in menu if m["kind"] in RATIO_KINDS}
     tf = f"S{cfg['tf']}" if cfg["tf"] else None
-    reg0 = [names[n - 1] for n in hist[0]["reg"]]
-    hx = Hexital("replay", [], [_build(n) for n in reg0], timeframe=tf, timeframe_fill=bool(cfg["fill"]))
+    life = timedelta(seconds=cfg["life"]) if cfg["life"] >= 0 else None
+    hx = Hexital("replay", [], [_build(menu[n - 1]) for n in hist[0]["reg"]], timeframe=tf,
+                 timeframe_fill=bool(cfg["fill"]), candles_lifespan=life,
+                 candlestick_type="HA" if cfg["ha"] else None)
     raw = [Candle(open=_f(c["o"]), high=_f(c["h"]), low=_f(c["l"]), close=_f(c["c"]), volume=_f(c["v"]),
                   timestamp=BASE + timedelta(seconds=c["ts"])) for c in beh["raw"]]
     pos, bad = 0, []
     for k, st in enumerate(hist, 1):
+        if not st.get("claim", True):
+            break       # from here on the lifespan has cut into an indicator's look-back: nothing is claimed
         op = st["op"]
         name = names[st["n"] - 1] if st["n"] else None
         try:
@@ -124,20 +141,20 @@ def replay(beh):
             break
         if sorted(hx.indicators.keys()) != sorted(names[n - 1] for n in st["reg"]):
             bad.append(f"call {k} {op}: registry {sorted(hx.indicators.keys())} != specification's")
-        _cmp_state(k, st, hx.candles(tf) if tf else hx.candles(), bad)
+        _cmp_state(k, st, hx.candles(tf) if tf else hx.candles(), bad, tols)
         if bad:
             break
     return bad
 
 
 def program(beh):
-    names = beh["names"]
+    names = [m["name"] for m in beh["menu"]]
     return [(s["op"], names[s["n"] - 1] if s["n"] else "", s["i"], s["raw"]) for s in beh["hist"]]
 
 
 if __name__ == "__main__":
     num, seed = int(sys.argv[1]), int(sys.argv[2])
-    behs, r = behaviours(num, 10, seed)
+    behs, r = behaviours(num, 16, seed)
     nbad = 0
     for b in behs:
         m = replay(b)
